@@ -2544,6 +2544,11 @@ class AfterBodyPhase(Phase):
         # here and not to whatever is currently open.
         self.tree.insertComment(token, self.tree.openElements[0])
 
+    def processSpaceCharacters(self, token):
+        # (not the "drop a newline after <pre>" variant: that rule is about
+        # the token directly after the start tag)
+        return self.parser.phases["inBody"].processSpaceCharactersNonPre(token)
+
     def processCharacters(self, token):
         self.parser.parseError("unexpected-char-after-body")
         self.parser.phase = self.parser.phases["inBody"]
